@@ -189,6 +189,16 @@ func genIn(r *common.Rand, sats uint64, allowBad bool) txgen.InSpec {
 			}
 		case 3:
 			in.Prev = common.Hex(r.Bytes(r.Pick([]int{1, 24, 26, 35})))
+		case 4: // the ord envelope behind something that is not P2PKH, or only its bytes inside a push: unsupported
+			env := feegen.Inscription(r.Bytes(20), []byte("text/plain"), r.Bytes(r.Intn(20)))[25:]
+			pk := append([]byte{0x21, 0x02}, r.Bytes(32)...)
+			in.Prev = common.Hex([][]byte{
+				append(append(append([]byte{}, pk...), 0xac), env...),
+				append([]byte{0x51}, env...),
+				append(append(append([]byte{0x51}, pk...), 0x51, 0xae), env...),
+				append([]byte{byte(len(env))}, env...),
+				append(append([]byte{0x76, 0xa9, 0x14}, r.Bytes(20)...), append([]byte{0x88, 0xad}, env...)...),
+			}[r.Intn(5)])
 		}
 	}
 	return in
@@ -469,6 +479,16 @@ func genSignedCases(r *common.Rand, n int) {
 				}
 			}
 		}
+		// half of the transactions are handed over in extended format first (the normal way a transaction
+		// reaches a signer): unsigned inputs then carry an empty, non-nil unlocking script
+		if r.Bool() {
+			t2, err := bt.NewTxFromBytes(tx.ExtendedBytes())
+			if err != nil {
+				panic(err)
+			}
+			tx = t2
+			kind += "/decoded"
+		}
 		start := txgen.FromTx(tx)
 		est, err := tx.EstimateSize()
 		if err != nil {
@@ -600,6 +620,6 @@ func main() {
 	if c.Mode == "gen" {
 		abortCase()
 	}
-	c.Stats.Rule = "size cases: 0..3 inputs (unsigned / signed with 1..253-byte scripts / P2PKH, P2PKH-inscription, nil, empty, mutated or random previous script) x 0..4 outputs or 252..254 identical outputs (P2PKH, OP_RETURN and OP_FALSE OP_RETURN with payloads {0,1,3,75,76,220,255,256,1000,70000}, near-miss prefixes, random) x 9 quotes (1/20..50 sat/byte, unequal std/data; one case in three with arbitrary rates: 1..1000 satoshis per {3,7,10,100,250,999,1000} bytes, standard and data drawn separately) x amount relations {out>in, fee-1, =fee, fee+1, =out, ample} against the real or the estimated size, plus missing fee type, zero denominator, wrapping products and totals; classification cases: every 1-bit mutation position of a P2PKH-inscription, P2PKH mutations, truncations, push-data edge scripts; DER: 11x11 boundary (r,s) grid + random; signed cases: 1..3 inputs locked to a random key, optionally partially signed first, signed by unlocker.Simple / FillAllInputs, (r,s) re-parsed from the script. distinct = distinct (tx, quote) / script / (r,s); non-trivial = transactions with at least one input or output, non-empty scripts, all signed cases"
+	c.Stats.Rule = "size cases: 0..3 inputs (unsigned / signed with 1..253-byte scripts / P2PKH, P2PKH-inscription, nil, empty, mutated or random previous script, the ord envelope behind a non-P2PKH script) x 0..4 outputs or 252..254 identical outputs (P2PKH, OP_RETURN and OP_FALSE OP_RETURN with payloads {0,1,3,75,76,220,255,256,1000,70000}, near-miss prefixes, random) x 9 quotes (1/20..50 sat/byte, unequal std/data; one case in three with arbitrary rates: 1..1000 satoshis per {3,7,10,100,250,999,1000} bytes, standard and data drawn separately) x amount relations {out>in, fee-1, =fee, fee+1, =out, ample} against the real or the estimated size, plus missing fee type, zero denominator, wrapping products and totals; classification cases: every 1-bit mutation position of a P2PKH-inscription, P2PKH mutations, truncations, push-data edge scripts; DER: 11x11 boundary (r,s) grid + random; signed cases: 1..3 inputs locked to a random key, optionally partially signed first, optionally decoded from the extended format first (unsigned inputs then carry an empty non-nil script), signed by unlocker.Simple / FillAllInputs, (r,s) re-parsed from the script. distinct = distinct (tx, quote) / script / (r,s); non-trivial = transactions with at least one input or output, non-empty scripts, all signed cases"
 	c.Finish()
 }
